@@ -46,6 +46,54 @@ fn build_doc(a2ml_text: Option<&str>, insts: &[Vec<Tok>]) -> Doc {
     }
 }
 
+/// the same shape with wider scalar types (every instance of `t` is an instance of the result, but
+/// the typed code does not decode what was parsed under it)
+fn widen(rng: &mut Rng, t: &AType, n_changed: &mut usize) -> AType {
+    let rec_items = |rng: &mut Rng, items: &[TItem], n: &mut usize| -> Vec<TItem> {
+        items
+            .iter()
+            .map(|i| TItem {
+                item: i.item.as_ref().map(|x| widen(rng, x, n)),
+                ..i.clone()
+            })
+            .collect()
+    };
+    match t {
+        AType::Scalar(s) => {
+            let w = match s {
+                Sc::UChar => Sc::UInt,
+                Sc::UInt => Sc::ULong,
+                Sc::ULong => Sc::UInt64,
+                Sc::Char => Sc::Int,
+                Sc::Int => Sc::Long,
+                Sc::Long => Sc::Int64,
+                Sc::Float => Sc::Double,
+                other => *other,
+            };
+            if w != *s && rng.coin() {
+                *n_changed += 1;
+                AType::Scalar(w)
+            } else {
+                t.clone()
+            }
+        }
+        AType::Array(inner, n) => AType::Array(Box::new(widen(rng, inner, n_changed)), *n),
+        AType::Struct { name, members } => AType::Struct {
+            name: name.clone(),
+            members: members.iter().map(|m| widen(rng, m, n_changed)).collect(),
+        },
+        AType::TaggedStruct { name, items } => AType::TaggedStruct {
+            name: name.clone(),
+            items: rec_items(rng, items, n_changed),
+        },
+        AType::TaggedUnion { name, items } => AType::TaggedUnion {
+            name: name.clone(),
+            items: rec_items(rng, items, n_changed),
+        },
+        other => other.clone(),
+    }
+}
+
 /// structural mutations: the result describes a different shape than the specification
 fn mutate(rng: &mut Rng, t: &AType, changed: &mut Vec<&'static str>) -> AType {
     match t {
@@ -301,6 +349,101 @@ macro_rules! spec_runner {
                     }
                 }
             }
+            // ---------------- storing the value that was just loaded must not change the written text
+            // (layout of IF_DATA and of everything around it included)
+            if let (Ok(before), Ok(after)) = (write(&a2l), write(&stored)) {
+                if before != after {
+                    rec.violation(
+                        &format!("written text changes when the loaded value is stored back unchanged ({})", $label),
+                        &format!("first difference at {}", crate::gram::first_diff_line(&before, &after)),
+                        witness_text("C19", &text, $label),
+                    );
+                }
+                rec.bump("store_unchanged.text_compared");
+            }
+            // ---------------- update_a2ml(): a file that has another A2ML block (or none) gets the text
+            // constant; after write and reload without a built-in definition the data still decodes
+            if case % 4 == 1 {
+                let other_a2ml = *rng.pick(&[Some("\n  block \"IF_DATA\" struct { int; };\n"), Some("\n  block \"IF_DATA\" taggedunion { \"OLD\" uint; };\n"), None]);
+                let udoc = build_doc(other_a2ml, &insts);
+                let utext = render(&udoc.flatten(), &LayoutCfg::c05(rng), rng).text;
+                if let Ok(Ok((mut ua, _))) = load_str_spec(&utext, Some(text_const.to_string()), false) {
+                    rec.bump("update_a2ml.cases");
+                    let typed_before: Vec<Option<$ty>> = ua.project.module[0].if_data.iter().map(|i| <$ty>::load_from_ifdata(i)).collect();
+                    if let Err((sig, detail)) = guarded(|| <$ty>::update_a2ml(&mut ua)) {
+                        rec.violation(&format!("{sig} in update_a2ml ({})", $label), &detail, witness_text("C19 update_a2ml", &utext, $label));
+                    } else {
+                        rec.eval();
+                        let all_set = ua.project.module.iter().all(|m| m.a2ml.as_ref().is_some_and(|a| a.a2ml_text == text_const));
+                        if !all_set {
+                            rec.violation(
+                                &format!("update_a2ml() does not set the A2ML block of every module to the text constant ({})", $label),
+                                &format!("file had: {other_a2ml:?}"),
+                                witness_text("C19 update_a2ml", &utext, $label),
+                            );
+                        } else if let Ok(out) = {
+                            // a block that update_a2ml() had to create is a new element: it is written
+                            // at the end of the module unless sort_new_items() places it (at the head)
+                            if other_a2ml.is_none() {
+                                ua.sort_new_items();
+                            }
+                            write(&ua)
+                        } {
+                            match load_str_spec(&out, None, false) {
+                                Ok(Ok((ra, rlog))) => {
+                                    let typed_after: Vec<Option<$ty>> = ra.project.module[0].if_data.iter().map(|i| <$ty>::load_from_ifdata(i)).collect();
+                                    if typed_after != typed_before {
+                                        let valid: Vec<bool> = ra.project.module[0].if_data.iter().map(|i| i.ifdata_valid).collect();
+                                        rec.violation(
+                                            &format!("IF_DATA does not decode to the same values after update_a2ml(), write and reload ({})", $label),
+                                            &format!("valid after reload: {valid:?}; reload log: {:?}; written: {} || before: {} | after: {}", rlog.iter().map(|e| e.to_string()).collect::<Vec<_>>(), clip(&out, 700), clip(&format!("{typed_before:?}"), 300), clip(&format!("{typed_after:?}"), 300)),
+                                            witness_text("C19 update_a2ml", &utext, $label),
+                                        );
+                                    }
+                                }
+                                _ => rec.violation(
+                                    &format!("file written after update_a2ml() does not load ({})", $label),
+                                    "",
+                                    witness_text("C19 update_a2ml", &utext, $label),
+                                ),
+                            }
+                        }
+                    }
+                }
+            }
+            // ---------------- built-in definition first: the file's own A2ML block has the same shape with
+            // wider scalar types; both accept the instances, the built-in one is tried first (documented),
+            // so the typed code decodes them
+            if case % 4 == 2 {
+                let mut n_changed = 0;
+                let wdef = Def {
+                    root: widen(rng, &def.root, &mut n_changed),
+                    hoisted: Vec::new(),
+                    features: Vec::new(),
+                };
+                if n_changed > 0 {
+                    let wtext = render_def(&wdef, rng);
+                    let wdoc = build_doc(Some(&wtext), &insts);
+                    let wrendered = render(&wdoc.flatten(), &LayoutCfg::c05(rng), rng).text;
+                    if let Ok(Ok((wa, _))) = load_str_spec(&wrendered, Some(text_const.to_string()), false) {
+                        rec.bump("builtin_first.cases");
+                        for (i, ifd) in wa.project.module[0].if_data.iter().enumerate() {
+                            if insts[i].is_empty() {
+                                continue;
+                            }
+                            rec.eval();
+                            if !matches!(guarded(|| <$ty>::load_from_ifdata(ifd)), Ok(Some(_))) {
+                                rec.violation(
+                                    &format!("IF_DATA is not decoded under the built-in definition although it is given and conforms ({})", $label),
+                                    &format!("block #{i}; the A2ML block of the file has the same shape with {n_changed} wider scalar types"),
+                                    witness_text("C19 built-in first", &wrendered, $label),
+                                );
+                                break;
+                            }
+                        }
+                    }
+                }
+            }
             // ---------------- shape mismatch: IF_DATA valid under a different in-file definition
             for _ in 0..2 {
                 let mut changed = Vec::new();
@@ -368,6 +511,9 @@ pub fn run(args: &Args, rec: &mut Recorder) {
         rec.floor(&format!("spec.{s}"), 10);
     }
     rec.floor("instances.conforming", 100);
+    rec.floor("store_unchanged.text_compared", 10);
+    rec.floor("update_a2ml.cases", 5);
+    rec.floor("builtin_first.cases", 5);
     rec.floor("definition.in_file(X_TEXT in A2ML block)", 10);
     rec.floor("definition.built_in(X_TEXT argument)", 10);
     for m in ["shorter_array", "other_scalar_type", "missing_struct_member", "block_form_flipped"] {
